@@ -213,6 +213,10 @@ def run(res, drv, tier, seed):
             res.violation('correspondence', 'mp_order is not a topological sort of the model dependency digraph (messages, depEdges)',
                           dict(rp, observed=obs, model=o, stream='C12.topo'))
             continue
+        if not o['check'].get('preorder', True) or not o['check'].get('rip_order', True):
+            res.violation('correspondence', f'maximal_cliques() is not a depth-first preorder of the tree / not a running-intersection order (preorder {o["check"].get("preorder")}, '
+                          f'rip order {o["check"].get("rip_order")}): GraphicalModel.mle relies on it', dict(rp, observed=obs, model=o, stream='C12.preorder'))
+            continue
         if sorted(map(tuple, o['model_nodes'])) != sorted(tuple(n) for n in art['nodes']):
             res.violation('correspondence', f'maximal cliques differ: model {sorted(o["model_nodes"])} impl {sorted(art["nodes"])}',
                           dict(rp, observed=obs, model=o, stream='C12.cliques'))
